@@ -489,3 +489,42 @@ Example C12_failed_template_nonvacuous :
    cm x = Some 500 /\ view x = (false, bs "<page 500>") /\
    hget (csnap x) K_CL = None /\ hget (csnap x) K_ETAG = None /\ hget (csnap x) K_LM = None).
 Proof. vm_compute. repeat split; reflexivity. Qed.
+
+(* ===================== requests served while another one is in flight ===================== *)
+
+(* Interleavings, not only sequences: a request may be interrupted anywhere between the Get of its
+   pooled objects and the deferred Put - inside its handler, or in its response path while
+   templates' WriteBuffered / ServeContent or gzip's Close hand status, header and body to the
+   connection - and any number of other requests of the site (each possibly interrupted in turn)
+   be served completely in the meantime [run_nest]. For EVERY initial content of the two pools,
+   EVERY configuration and EVERY such nesting of requests (panicking ones included), every
+   response - status, header, BODY - is the response to that request served alone by a fresh
+   server: no request ever sees, or sends, bytes that another request's handler wrote. *)
+Theorem C12_interleaved_requests_independent :
+  forall et c sv t, fst (run_nest et c sv t) = map (serve_req et c) (nest_reqs t).
+Proof. intros et c sv t. exact (run_nest_responses et c t sv). Qed.
+Print Assumptions C12_interleaved_requests_independent.
+
+(* with nothing served in between, the interruptible service is the plain one (same pools after) *)
+Theorem C12_uninterrupted_nest_is_serve :
+  forall et c q sv, snd (run_nest et c sv (Nest q [])) = snd (serve_srv et c sv q).
+Proof. exact run_nest_holds_objects. Qed.
+Print Assumptions C12_uninterrupted_nest_is_serve.
+
+(* the case the theorem is about: behind templates a handler wrote a page and returned (0, err)
+   (passed through by WriteBuffered, not rendered); while that response is on its way out a
+   second client's page goes through the same templates rule, the pool holding a used buffer:
+   each client receives its own page *)
+Example C12_interleaved_requests_independent_nonvacuous :
+  let c := {| c_reqid := false; c_limits := false; c_log := false; c_rewrite := false; c_gzip := false; c_header := false;
+              c_errors := ENone; c_redir := false; c_status := None; c_mime := false; c_internal := false; c_templates := true |} in
+  let a := {| q_path := bs "/first.html"; q_ae := false; q_blen := 0%N; q_rd := None;
+              q_ops := [OWh 200; OWr (bs "page of the first client")]; q_ret := 0; q_err := true |} in
+  let b := {| q_path := bs "/second.html"; q_ae := false; q_blen := 0%N; q_rd := None;
+              q_ops := [OWr (bs "account data of the second client")]; q_ret := 0; q_err := false |} in
+  let sv := {| gz_pool := []; buf_pool := [bs "stale"] |} in
+  map (fun x => (o_status (observe x), o_view (observe x))) (fst (run_nest (fun _ => []) c sv (Nest a [Nest b []])))
+    = [(200, bs "page of the first client"); (200, bs "account data of the second client")] /\
+  buf_pool (snd (run_nest (fun _ => []) c sv (Nest a [Nest b []])))
+    = [bs "page of the first client"; bs "account data of the second client"].
+Proof. vm_compute. split; reflexivity. Qed.
